@@ -36,12 +36,18 @@ def find_peaks(data, min_peak_distance, min_peak_height):
 
 @_nb.njit()
 def _find_peaks_numba_core(data, maximas, min_peak_distance):
-    for i in range(len(maximas)):
+    positions = maximas.copy()
+    for i in range(len(positions)):
+        if maximas[i] == -1:
+            continue
         p = i
-        while p < (len(maximas) - 1) and abs(maximas[i] - maximas[p + 1]) < min_peak_distance:
+        while p < (len(positions) - 1) and abs(positions[i] - positions[p + 1]) < min_peak_distance:
             p += 1
-            if data[maximas[i]] < data[maximas[p]]:
+            if maximas[p] == -1:
+                continue
+            if data[positions[i]] < data[positions[p]]:
                 maximas[i] = -1
+                break
             else:
                 maximas[p] = -1
     return maximas[maximas > -1]
